@@ -1,0 +1,127 @@
+//go:build verif
+// +build verif
+
+// Machine-checked contracts for package pattern (comment-only; read by
+// /verif/govc, see /verif/DESIGN.md §3).  This file declares nothing.
+
+package pattern
+
+// ---------------------------------------------------------------------------
+// C15: byte sets (character classes) as 256-bit sets
+// ---------------------------------------------------------------------------
+
+//@ func (byteSet).contains
+//@   prop C15
+//@   arith bv
+//@   pure
+//@   modifies nothing
+//@   ensures result == ((s[b>>6] >> (b & 63)) & 1 != 0)
+
+//@ func (*byteSet).add
+//@   prop C15
+//@   arith bv
+//@   requires s != nil
+//@   modifies all(s)
+//@   ensures forall(x, uint8, (*s).contains(x) == (old(*s).contains(x) || x == b))
+
+//@ func (*byteSet).merge
+//@   prop C15
+//@   arith bv
+//@   requires s != nil
+//@   modifies all(s)
+//@   ensures forall(x, uint8, (*s).contains(x) == (old(*s).contains(x) || t.contains(x)))
+
+//@ func (*byteSet).complement
+//@   prop C15
+//@   arith bv
+//@   requires s != nil
+//@   modifies all(s)
+//@   ensures forall(x, uint8, (*s).contains(x) == !old(*s).contains(x))
+
+// The named classes of the manual (§6.4.1), as C's ctype in the C locale.
+//@ lemma classes/definitions
+//@   prop C15
+//@   arith bv
+//@   forall x uint8
+//@   ensures digitSet.contains(x) == ('0' <= x && x <= '9')
+//@   ensures lowerSet.contains(x) == ('a' <= x && x <= 'z')
+//@   ensures upperSet.contains(x) == ('A' <= x && x <= 'Z')
+//@   ensures letterSet.contains(x) == (('a' <= x && x <= 'z') || ('A' <= x && x <= 'Z'))
+//@   ensures alphanumSet.contains(x) == (('a' <= x && x <= 'z') || ('A' <= x && x <= 'Z') || ('0' <= x && x <= '9'))
+//@   ensures hexSet.contains(x) == (('a' <= x && x <= 'f') || ('A' <= x && x <= 'F') || ('0' <= x && x <= '9'))
+//@   ensures spaceSet.contains(x) == ((9 <= x && x <= 13) || x == 32)
+//@   ensures controlSet.contains(x) == (x < 32 || x == 127)
+//@   ensures printableSet.contains(x) == (33 <= x && x <= 126)
+//@   ensures punctSet.contains(x) == ((33 <= x && x <= 47) || (58 <= x && x <= 64) || (91 <= x && x <= 96) || (123 <= x && x <= 126))
+//@   ensures zeroSet.contains(x) == (x == 0)
+//@   ensures fullSet.contains(x)
+
+// ---------------------------------------------------------------------------
+// C15: the matcher's single-byte steps and its CPU budget
+// ---------------------------------------------------------------------------
+
+// Every consumed subject byte is charged (ghost cpu), and the budget aborts the
+// match exactly when it runs out.
+//@ func (*patternMatcher).consumeBudget
+//@   prop C15
+//@   arith int
+//@   requires m != nil
+//@   modifies m.budget
+//@   exits any when m.budget == 1
+//@   exits_ensures m.budget == 0
+//@   ensures old(m.budget) == 0 ==> m.budget == 0
+//@   ensures old(m.budget) != 0 ==> m.budget == old(m.budget) - 1
+//@   ghost cpu += 1
+
+//@ func (*patternMatcher).matchNext
+//@   prop C15
+//@   arith int
+//@   requires m != nil && 0 <= m.si
+//@   modifies m.si, m.budget
+//@   exits any
+//@   ensures result == (old(m.si) < len(m.s) && s.contains(m.s[old(m.si)]))
+//@   ensures result ==> m.si == old(m.si) + 1 && ghost(cpu) == old(ghost(cpu)) + 1
+//@   ensures !result ==> m.si == old(m.si) && m.budget == old(m.budget)
+
+//@ func (*patternMatcher).getNext
+//@   prop C15
+//@   arith int
+//@   requires m != nil && 0 <= m.si
+//@   modifies m.si, m.budget
+//@   exits any
+//@   ensures ok == (old(m.si) < len(m.s))
+//@   ensures ok ==> b == m.s[old(m.si)] && m.si == old(m.si) + 1 && ghost(cpu) == old(ghost(cpu)) + 1
+//@   ensures !ok ==> m.si == old(m.si) && m.budget == old(m.budget)
+
+//@ func (*patternMatcher).addTrackback
+//@   external
+
+// Repetition items (extracted verbatim from patternMatcher.match): where the
+// matcher may come back to.  `x+` must keep at least one repetition: the lowest
+// position it can back down to is one past where it started; `x*` and `x?` may
+// back down to where they started.
+//@ fragment match_plus of (*patternMatcher).match at switch item.ptnType/case ptnGreedyRepeatOnce
+//@   prop C15
+//@   arith int
+//@   requires m != nil && 0 <= m.si
+//@   modifies everything()
+//@   exits any
+//@   loop 1: invariant m.si >= si && si == old(m.si) + 1
+//@   assert_before_call addTrackback: $siMin == old(m.si) + 1 && m.si > $siMin
+
+//@ fragment match_star of (*patternMatcher).match at switch item.ptnType/case ptnGreedyRepeat
+//@   prop C15
+//@   arith int
+//@   requires m != nil && 0 <= m.si
+//@   modifies everything()
+//@   exits any
+//@   loop 1: invariant m.si >= si && si == old(m.si)
+//@   assert_before_call addTrackback: $siMin == old(m.si) && m.si > $siMin
+
+//@ fragment match_opt of (*patternMatcher).match at switch item.ptnType/case ptnOptional
+//@   prop C15
+//@   arith int
+//@   requires m != nil && 0 <= m.si
+//@   modifies everything()
+//@   exits any
+//@   assert_before_call addTrackback: $siMin == old(m.si) && m.si == old(m.si) + 1
